@@ -1,11 +1,12 @@
-(** C13 — leaf arithmetic of the tablebase probe: the 50-move margin of the on-demand branch of
+(** C13 — the tablebase probe and the tablebase rules of the search.
+    Part 1, leaf arithmetic: the 50-move margin of the on-demand branch of
     TBProbe::tbProbe (lib/texellib/tb/tbprobe.cpp:92-141) and Evaluate::swindleScore
     (lib/texellib/evaluate.cpp:183-197).  Hand-written transcriptions, tied to the code by the
     leaf correspondence of props/c13.py (harness/c04_harness.cpp requests R and X call the real
     functions; rule50Margin/updateEvScore are compiled from the source text of the current tree).
     Constants regenerated (gen/SearchConsts.v).  No proofs in this file. *)
-From Coq Require Import ZArith Bool.
-From Texel Require Import Search.Score.
+From Coq Require Import ZArith Bool List.
+From Texel Require Import Search.Score Search.Game Search.Rules.
 Local Open Scope Z_scope.
 
 (** tbprobe.cpp: updateEvScore(ent, newScore), on the entry's evalScore field *)
@@ -42,3 +43,222 @@ Definition swindleScore (evalScore distToWin : Z) : Z :=
 (** the DTM score of a position in which the side to move mates (sign 1) or is mated
     (sign -1) in k plies, as probeDTM reports it at search ply [ply] *)
 Definition dtm_score (sign k ply : Z) : Z := sign * (MATE0 - ply - k - 1).
+
+(** ------------------------------------------------------------------------------------------
+    The tablebase return site of Search::negaScout (search.cpp:737-795) as a pure function of
+    the probe result (type, score = getScore(ply), evalScore field = swindle distance), the
+    window, the remaining depth and the static evaluation of the node.
+
+      SCut score ty          the node returns [score] (stored with type [ty]): return site [7]
+      SGo a' b' tbs tbt      no cut-off: the rest of negaScout runs with the window (a', b'),
+                             tbScore = tbs, tbScoreType = tbt (T_EMPTY: no bound remembered);
+                             every later return is clamped by [tbAdjust]                      *)
+Definition drawSwindleReduction : Z := 16.
+
+Inductive site_result :=
+| SCut (score ty : Z)
+| SGo (alpha beta tbScore tbType : Z).
+
+Definition tb_site (ty score ev alpha beta depth evalScore : Z) : site_result :=
+  if (score =? 0) && (ty =? T_EXACT) then
+    if depth <? drawSwindleReduction then SCut (swindleScore evalScore ev) T_EXACT
+    else if maxFrustrated <=? alpha then SCut maxFrustrated T_LE
+    else if beta <=? - maxFrustrated then SCut (- maxFrustrated) T_GE
+    else SGo alpha beta 0 T_EMPTY
+  else
+    let swindled := (score =? 0) && (depth <? drawSwindleReduction) in
+    let sc := if swindled then swindleScore 0 ev else score in
+    let checkCutOff := negb ((score =? 0) && negb (depth <? drawSwindleReduction)) in
+    if checkCutOff && ((ty =? T_EXACT) || ((ty =? T_GE) && (beta <=? sc)) || ((ty =? T_LE) && (sc <=? alpha)))
+    then SCut sc ty
+    else if (ty =? T_GE) && (alpha <? sc) then SGo (sc - 1) beta sc T_GE
+    else if (ty =? T_LE) && (sc <? beta) then SGo alpha (sc + 1) sc T_LE
+    else SGo alpha beta 0 T_EMPTY.
+
+(** search.cpp:653-661  the lambda tbAdjust *)
+Definition tbAdjust (tbt tbs score : Z) : Z :=
+  if tbt =? T_GE then Z.max score tbs
+  else if tbt =? T_LE then Z.min score tbs
+  else score.
+
+(** what the generator's table says about a position (C12: TB/DtmCert.v [label], distances in
+    moves of the side to move) as the score probeDTM hands out at search ply [ply]
+    (tbgen.cpp:617-636; = DtmCert.score_of_label, lemma label_score_eq) *)
+Inductive tbval := TWin (n : nat) | TLoss (n : nat) | TDraw.
+
+Definition tbval_plies (v : tbval) : Z :=
+  match v with TWin n => 2 * Z.of_nat n - 1 | TLoss n => 2 * Z.of_nat n | TDraw => 0 end.
+
+Definition label_score (v : tbval) (ply : Z) : Z :=
+  match v with
+  | TWin n => dtm_score 1 (2 * Z.of_nat n - 1) ply
+  | TLoss n => dtm_score (-1) (2 * Z.of_nat n) ply
+  | TDraw => 0
+  end.
+
+(** tbProbe's on-demand branch on a position the table knows, with a fresh TTEntry *)
+Definition probe_of (v : tbval) (ply hmc : Z) : Z * Z * Z :=
+  let '(ty, f, ev) := tbProbe_ondemand (label_score v ply) ply hmc 0 in (ty, ttGetScore f ply, ev).
+
+(** the whole site: probe + handling *)
+Definition tb_node (v : tbval) (ply hmc alpha beta depth evalScore : Z) : site_result :=
+  let '(ty, sc, ev) := probe_of v ply hmc in tb_site ty sc ev alpha beta depth evalScore.
+
+(** root move selection of iterativeDeepening at the end of an iteration: the move with the
+    highest score, the earlier one on ties (insertion sort with strict comparison,
+    search.cpp:359-367) *)
+Fixpoint best_of {A : Type} (cur : A * Z) (l : list (A * Z)) : A * Z :=
+  match l with
+  | nil => cur
+  | x :: r => if snd cur <? snd x then best_of x r else best_of cur r
+  end.
+
+(** ------------------------------------------------------------------------------------------
+    The rule system of C04 (Search/Rules.v) extended with the tablebase rules.  The
+    judgements and all rules of C04 are repeated unchanged (constructor names prefixed with T);
+    new are
+      TB_tb_cut      [7]  the probe result cuts the node off
+      TB_tb_go            the probe result narrows the window; the rest of the node runs with
+                          the narrowed window and its result is clamped (tbAdjust)
+      TB_tb_unknown_move [19]  lower bound from the table that no move reached: the bound itself
+      TTT_nonmate         a stored score that is not a mate score (the clamped / swindle scores)
+    over a game with a table [tb] (None = probeDTM finds nothing) and the half-move clock
+    [hmc] of a node (the clock is NOT part of the game: claimable draws are outside the
+    game-theoretic semantics, as in C04).                                                      *)
+Section TBRuleSystem.
+  Variable pos : Type.
+  Variable moves : pos -> list pos.
+  Variable in_check : pos -> bool.
+  Variable tb : pos -> option tbval.
+  Variable hmc : pos -> Z.
+
+  Inductive TNode : pos -> Z -> Z -> Z -> Z -> Prop :=
+  | TN_nonmate : forall p ply a b s,
+      isWinScore s = false -> isLoseScore s = false ->
+      TNode p ply a b s
+  | TN_mdp : forall p ply a b,
+      ply_ok ply -> a < b -> mdp_beta b ply <= a ->
+      TNode p ply a b a
+  | TN_negascout : forall p ply a b s,
+      ply_ok ply -> a < mdp_beta b ply ->
+      TBody p ply a (mdp_beta b ply) s ->
+      TNode p ply a b s
+  | TN_q_standpat : forall p ply a b s (ic : bool),
+      (if ic then s = mated_score ply else isWinScore s = false /\ isLoseScore s = false) ->
+      b <= s -> isWinScore s = false ->
+      TNode p ply a b s
+  | TN_q_cut : forall p ply a b s,
+      b <= s ->
+      (isWinScore s = true -> TWinChild p ply s) ->
+      TNode p ply a b s
+  | TN_q_end : forall p ply a b s,
+      (a < s -> isWinScore s = true -> TWinChild p ply s) ->
+      (s < b -> isLoseScore s = true -> moves p = nil -> in_check p = true /\ mated_score ply <= s) ->
+      (s < b -> isLoseScore s = true -> TAllChildren (moves p) ply s) ->
+      TNode p ply a b s
+
+  with TBody : pos -> Z -> Z -> Z -> Z -> Prop :=
+  | TB_draw_mated : forall p ply a b s,
+      ply_ok ply -> checkmated moves in_check p -> s = mated_score ply ->
+      TBody p ply a b s
+  | TB_draw : forall p ply a b s,
+      s = 0 ->
+      TBody p ply a b s
+  | TB_tt_cut : forall p ply a b s ty f eDepth depth,
+      TTTFact p ty f -> ply_ok ply ->
+      s = ttGetScore f ply ->
+      isCutOff ty eDepth s a b depth = true ->
+      TBody p ply a b s
+  (** [7] search.cpp:737-783  tablebase cut-off *)
+  | TB_tb_cut : forall p ply a b s v depth evalScore ty',
+      tb p = Some v -> ply_ok ply ->
+      tb_node v ply (hmc p) a b depth evalScore = SCut s ty' ->
+      TBody p ply a b s
+  (** search.cpp:784-793, 653-661, 1079-1083, 1279-1287  tablebase bound without cut-off *)
+  | TB_tb_go : forall p ply a b s s0 v depth evalScore a' b' tbs tbt,
+      tb p = Some v -> ply_ok ply ->
+      tb_node v ply (hmc p) a b depth evalScore = SGo a' b' tbs tbt ->
+      TBody p ply a' b' s0 ->
+      s = tbAdjust tbt tbs s0 ->
+      TBody p ply a b s
+  (** [19] search.cpp:1279-1287  lower bound from the table, no move reached it: the bound itself *)
+  | TB_tb_unknown_move : forall p ply a b s v depth evalScore a' b',
+      tb p = Some v -> ply_ok ply ->
+      tb_node v ply (hmc p) a b depth evalScore = SGo a' b' s T_GE ->
+      TBody p ply a b s
+  | TB_qsearch : forall p ply a b s,
+      TNode p ply a b s ->
+      TBody p ply a b s
+  | TB_razor : forall p ply a b s mg,
+      in_check p = false -> a < b -> 0 <= mg ->
+      TNode p ply (a - mg) (b - mg) s -> s <= a - mg ->
+      TBody p ply a b s
+  | TB_revfut : forall p ply a b s,
+      in_check p = false -> b <= s -> isWinScore s = false ->
+      TBody p ply a b s
+  | TB_null : forall p ply a b s s0,
+      in_check p = false -> isWinScore b = false -> b <= s0 ->
+      s = (if isWinScore s0 then b else s0) ->
+      TBody p ply a b s
+  | TB_cut_tt_lose : forall p ply a b s ty f,
+      TTTFact p ty f -> ply_ok ply ->
+      (ty = T_EXACT \/ ty = T_LE) ->
+      s = ttGetScore f ply -> isLoseScore s = true ->
+      TBody p ply a b s
+  | TB_cut : forall p ply a b s,
+      b <= s ->
+      (isWinScore s = true -> TWinChild p ply s) ->
+      TBody p ply a b s
+  | TB_stalemate : forall p ply a b s,
+      stalemated moves in_check p -> s = 0 ->
+      TBody p ply a b s
+  | TB_end_exact : forall p ply a b s,
+      a < s -> s < b ->
+      (isWinScore s = true -> TWinChild p ply s) ->
+      (isLoseScore s = true -> moves p <> nil) ->
+      (isLoseScore s = true -> TAllChildren (moves p) ply s) ->
+      TBody p ply a b s
+  | TB_end_tt_win : forall p ply a b s ty f,
+      TTTFact p ty f -> ply_ok ply ->
+      (ty = T_EXACT \/ ty = T_GE) ->
+      s = ttGetScore f ply -> isWinScore s = true ->
+      TBody p ply a b s
+  | TB_end_faillow : forall p ply a b s,
+      s <= a ->
+      (isLoseScore s = true -> moves p = nil -> in_check p = true /\ mated_score ply <= s) ->
+      (isLoseScore s = true -> TAllChildren (moves p) ply s) ->
+      TBody p ply a b s
+  | TB_end_mated : forall p ply a b s,
+      ply_ok ply -> checkmated moves in_check p -> s = mated_score ply ->
+      TBody p ply a b s
+
+  with TTTFact : pos -> Z -> Z -> Prop :=
+  | TTT_store : forall p ply a b s ty,
+      TBody p ply a b s -> ply_ok ply -> score_ok s -> type_ok ty a b s ->
+      TTTFact p ty (ttSetScore s ply)
+  | TTT_nonmate : forall p ply s ty,
+      isWinScore s = false -> isLoseScore s = false -> ply_ok ply -> score_ok s ->
+      TTTFact p ty (ttSetScore s ply)
+  | TTT_weaken_le : forall p ty f,
+      TTTFact p ty f -> (ty = T_EXACT \/ ty = T_LE) -> TTTFact p T_LE f
+  | TTT_weaken_ge : forall p ty f,
+      TTTFact p ty f -> (ty = T_EXACT \/ ty = T_GE) -> TTTFact p T_GE f
+
+  with TWinChild : pos -> Z -> Z -> Prop :=
+  | TWC_intro : forall p ply s c a' b' s',
+      In c (moves p) -> TNode c (ply + 1) a' b' s' -> s' < b' -> s = - s' ->
+      TWinChild p ply s
+
+  with TAllChildren : list pos -> Z -> Z -> Prop :=
+  | TAC_nil : forall ply s, TAllChildren nil ply s
+  | TAC_cons : forall ply s c l a' b' s',
+      TNode c (ply + 1) a' b' s' -> a' < s' -> - s' <= s ->
+      TAllChildren l ply s ->
+      TAllChildren (c :: l) ply s.
+End TBRuleSystem.
+
+Arguments TNode {pos} moves in_check tb hmc _ _ _ _ _.
+Arguments TBody {pos} moves in_check tb hmc _ _ _ _ _.
+Arguments TTTFact {pos} moves in_check tb hmc _ _ _.
+Arguments TWinChild {pos} moves in_check tb hmc _ _ _.
+Arguments TAllChildren {pos} moves in_check tb hmc _ _ _.
